@@ -593,3 +593,41 @@ def hash_defaults(ctx):
         if enc is not None:
             ctx.require(en_ == enc, q, 'the encoding asked for (%r) is replaced by %r' % (enc, en_), fn)
     ctx.floor(n, 7, 'form selections')
+
+
+def network_by_value_exact(ctx):
+    """networks.network_by_value evaluated on a small table (bitcoin: bech32 prefix bc / address version 00, regtest: bcrt / 6F, testnet: tb / 6F):
+    a value selects exactly the networks whose field EQUALS it - `bcrt` is not also bitcoin because it starts with `bc`, an upper-case
+    human-readable part `BC` matches nothing (the table is lower case; only the hexadecimal fields are retried in upper case), and the
+    answer is ordered by priority."""
+    q = 'networks:network_by_value'
+    fn = ctx.repo.func(q)
+    table = {'bitcoin': {'prefix_bech32': 'bc', 'prefix_address': '00', 'priority': 10},
+             'testnet': {'prefix_bech32': 'tb', 'prefix_address': '6F', 'priority': 8},
+             'regtest': {'prefix_bech32': 'bcrt', 'prefix_address': '6F', 'priority': 5}}
+    cases = [('prefix_bech32', 'bc', ['bitcoin']), ('prefix_bech32', 'bcrt', ['regtest']), ('prefix_bech32', 'tb', ['testnet']), ('prefix_bech32', 'b', []),
+             ('prefix_bech32', 'BC', []), ('prefix_bech32', 'TB', []), ('prefix_address', '6F', ['testnet', 'regtest']), ('prefix_address', '6f', ['testnet', 'regtest']),
+             ('prefix_address', '00', ['bitcoin']), ('prefix_address', '6F00', []), ('prefix_bech32', 'bcx', [])]
+    n = 0
+    for field, value, want in cases:
+        it = Interp(ctx.repo, 'networks')
+        it.consts = dict(it.consts)
+        it.consts['NETWORK_DEFINITIONS'] = table
+        try:
+            exits = it.run_function(fn, {'field': field, 'value': value})
+        except AnalysisError as e:
+            ctx.undecided('network_by_value(%r, %r) not evaluable: %s' % (field, value, str(e)[:80]))
+        rets = [term(e.value) for e in exits if e.kind == 'return']
+        if len(rets) != 1 or not (isinstance(rets[0], tuple) and rets[0][0] == 'list'):
+            ctx.undecided('network_by_value(%r, %r) evaluates to %s' % (field, value, [show(r)[:60] for r in rets]))
+        got = list(rets[0][1:])
+        n += 1
+        ctx.require(got == want, q, 'network_by_value(%r, %r) selects %s, the table says %s' % (field, value, got, want), fn,
+                    'a bcrt1... address is accepted on a bitcoin transaction and re-read as bc1...; an upper-case BC1... address is given a network and re-encoded with a mixed-case string'
+                    if field == 'prefix_bech32' else 'a version byte selects the wrong networks')
+    ctx.saw('network_by_value: %d look-ups on a 3-network table select by equality, in priority order' % n)
+
+
+PROP.obligation('C05.network-lookup', canaries=[
+    mut.replace_expr('networks', 'network_by_value', 'NETWORK_DEFINITIONS[nv][field] == value', 'value.startswith(NETWORK_DEFINITIONS[nv][field])', 'prefixes matched by startswith', nth=0),
+])(network_by_value_exact)
